@@ -399,12 +399,13 @@ theorem wfFiles_intro (off len : Nat) (f : FileI) (fs : List FileI) (h1 : wfFile
   refine ⟨⟨⟨⟨h1, h2⟩, h3⟩, ?_⟩, h5⟩
   cases f <;> simpa [storedAttrs, hdrLenOfAttrs] using h4
 
-/-- the files fit the volume: each header lies strictly inside the walk range of the reader, each
-    file ends inside the volume -/
+/-- the files fit the volume: each header lies inside the walk range of the reader (it may end exactly
+    at the end of the volume: the reader accepts that since fix cce350a, finding F52), each file ends
+    inside the volume -/
 def Fits : Nat → Nat → List FileI → Prop
   | _, _, [] => True
   | off, len, f :: fs =>
-    fileStart off (storedAttrs f) + 24 < len ∧ fileStart off (storedAttrs f) + sizeFile f ≤ len ∧
+    fileStart off (storedAttrs f) + 24 ≤ len ∧ fileStart off (storedAttrs f) + sizeFile f ≤ len ∧
       Fits (fileStart off (storedAttrs f) + sizeFile f) len fs
 
 theorem wfFiles_withPads : ∀ (fis : List FileI) (off len : Nat),
